@@ -131,6 +131,12 @@ var c01Twins = [][]string{
 	{"{% set abcdefghij = 1 %}{% set abcdefghik = 2 %}{{ abcdefghij }}{{ abcdefghik }}", "{% set abcdefghik = 3 %}{{ abcdefghik }}{{ abcdefghij }}", "{% set abcdefghijabcdefghijabcdefghij1 = 'L1' %}{% set abcdefghijabcdefghijabcdefghij2 = 'L2' %}{{ abcdefghijabcdefghijabcdefghij1 }}{{ abcdefghijabcdefghijabcdefghij2 }}"},
 	{"{% if true %}T{% endif %}{% set True = 'var' %}{{ True }}", "{% set TRUE = 'VAR' %}{{ TRUE }}{{ true ? 1 : 0 }}", "{% set Null = 'n' %}{{ Null }}{{ null is null ? 'nn' : 'x' }}", "{% set If = 'i' %}{{ If }}"},
 	{"{% block Main %}M{% endblock %}{% block main %}m{% endblock %}", "{% block main %}m2{% endblock %}", "{% block MAIN %}M3{% endblock %}"},
+	// engine globals that are Go collections (part of the engine's configuration): a render that reorders or extends one
+	// in place changes what every later render on that engine sees
+	{"{{ gints|sort|join(',') }}", "{{ gints|join(';') }}", "{{ gints|reverse|join(',') }}", "{{ gints|first }}{{ gints|last }}", "{{ gints|merge([1])|join(',') }}|{{ gints|length }}"},
+	{"{{ gstrs|sort|join(',') }}", "{{ gstrs|join(';') }}", "{{ gstrs|reverse|join(',') }}", "{{ gfl|sort|join(',') }}", "{{ gfl|join(';') }}", "{{ gstrs|slice(1)|merge(['z'])|join }}|{{ gstrs|length }}"},
+	{"{{ glist|sort|join(',') }}", "{{ glist|join(';') }}", "{{ glist|reverse|join(',') }}", "{{ glist|merge([9])|join(',') }}", "{{ glist|slice(0, 2)|merge([8])|join(',') }}|{{ glist|join }}", "{% set glist = glist|merge([7]) %}{{ glist|join }}"},
+	{"{{ gmap|keys|join(',') }}", "{{ gmap|merge({'z': 26})|keys|join(',') }}", "{{ gmap.list|sort|join }}|{{ gmap.list|join }}", "{{ gmap.list|join }}", "{% for k, v in gmap %}{{ k }};{% endfor %}", "{{ gmap|json_encode }}"},
 }
 
 func (p *c01) gen(seed uint64, idx int) *c01History {
@@ -291,6 +297,12 @@ func c01NewEngine(st *c01Engine) (*twig.Engine, *twig.ArrayLoader) {
 	l := twig.NewArrayLoader(cp)
 	e.RegisterLoader(l)
 	e.AddFunction("boom", c01Boom)
+	// globals that are Go collections, fresh for every engine
+	e.AddGlobal("gints", []int{7, 3, 5})
+	e.AddGlobal("gstrs", []string{"b", "a", "c"})
+	e.AddGlobal("gfl", []float64{2.5, 1.5, 3.5})
+	e.AddGlobal("glist", append(make([]interface{}, 0, 8), 3, 1, 2))
+	e.AddGlobal("gmap", map[string]interface{}{"b": 2, "a": 1, "list": []interface{}{"y", "x"}})
 	// every engine has a security policy (it only matters inside `include ... sandboxed`)
 	pol := twig.NewDefaultSecurityPolicy()
 	pol.AllowedFilters = map[string]bool{"lower": true, "escape": true}
